@@ -2,7 +2,8 @@
 
 Lean: Model/Hostile{Wire,Banner,Der,Loop}.lean (+ Model/Transport.lean's receive loop), Lemmas/Hostile*.lean,
 Props/C10.lean (recv_terminates_linear, handler_loop_linear, banner_bounded, decode_total, der_depth,
-der_recursion_witness, send_loop_progress_partial, send_loop_zero_pktsize_spins, numeric_extremes_*).
+der_recursion_witness, send_loop_progress_partial, send_loop_progress, decode_error_closes_cleanly,
+numeric_extremes_*).
 Translator: limits and guards of _recv_version / _process_userauth_request / _process_channel_open* /
 _flush_send_buf / _process_data -> Gen/C10.lean.
 Correspondence: Lean field decoders vs real SSHPacket getters; Lean DER decoder (result class, recursion depth,
@@ -49,8 +50,8 @@ MANIFEST = {
             'getter sequence is total, consumes a prefix and rejects over-long length fields (decode_total); the DER '
             'decoder\'s recursion depth is <= length/2+1 and its calls <= length+1 while a nest of L SEQUENCEs defeats '
             'any recursion limit L (der_depth, der_recursion_witness = F6); the send loop terminates for every '
-            'positive maximum packet size and provably spins for 0 (send_loop_progress_partial / '
-            'send_loop_zero_pktsize_spins = F2). Tied to the code by a translator, a differential run against the real '
+            'positive maximum packet size, and for the regenerated loop either for every size or provably spins for 0 '
+            '(send_loop_progress_partial / send_loop_progress = F2). Tied to the code by a translator, a differential run against the real '
             'getters, der_decode, version exchange and send loop, and a budgeted hostile-input oracle (all message '
             'types x phases x roles, garbage streams, parser fuzz in worker processes).',
     'note': 'CPU time is represented by step counts and loop rounds, output by bytes written; memory exhaustion through '
@@ -289,15 +290,17 @@ def correspondence(ctx: Ctx) -> CorrResult:
     lines: List[str] = []
     expect: List[Tuple[str, Any, Any]] = []       # (name, case, impl or acceptor)
     limits = {k: getattr(importlib.import_module('asyncssh.connection'), k) for k in TR.LIMITS}
+    budget = 240 if ctx.tier == 'quick' and not ctx.escalated else 900
 
-    # (1) field decoders vs SSHPacket getters -------------------------------------------------------
+    def unresponsive(group: str, why: Any) -> None:
+        res.disagreements.append(Disagreement({'op': 'impl-unresponsive', 'group': group}, 'model not consulted',
+                                              str(why)[-300:], f'impl-unresponsive:{group}'))
+
+    # (1) field decoders vs SSHPacket getters, (2) DER decoder vs instrumented der_decode ---------------
     rng = ctx.subrng('corr-fields')
+    fcases: List[Tuple[str, bytes]] = []
     for i in range(ctx.n(1500, 20000)):
-        schema, payload = gen_fields_case(rng, malformed=(i % 2 == 1))
-        lines.append(f'fields {schema} {hx(payload)}')
-        impl = impl_fields('' if schema == '-' else schema, payload)
-        expect.append(('fields', {'schema': schema, 'payload': payload.hex()}, impl))
-        hist.hit('fields:' + impl.split(' ')[0] + (':' + impl.split(' ')[1] if impl.startswith('err') else ''))
+        fcases.append(gen_fields_case(rng, malformed=(i % 2 == 1)))
     # the schemas the channel handlers use, at the numeric extremes
     for schema in ('suuu', 'uuuu', 'ue', 'se', 'sss'):
         for _ in range(ctx.n(20, 200)):
@@ -308,31 +311,44 @@ def correspondence(ctx: Ctx) -> CorrResult:
                 elif k == 's':
                     sv = rng.choice([b'', b'session', b'x' * 40])
                     body += struct.pack('>I', rng.choice([len(sv), 0, 1, 0xffffffff])) + sv
-            lines.append(f'fields {schema} {hx(body)}')
-            expect.append(('fields', {'schema': schema, 'payload': body.hex()}, impl_fields(schema, body)))
-            hist.hit('fields:handler-schema')
-
-    # (2) DER decoder vs instrumented der_decode -------------------------------------------------
+            fcases.append((schema, body))
     rng = ctx.subrng('corr-der')
     str_limit = sys.get_int_max_str_digits() if hasattr(sys, 'get_int_max_str_digits') else 0
     der_cases: List[bytes] = []
     for i in range(ctx.n(1200, 15000)):
-        r = rng.random()
-        if r < 0.45:
-            der_cases.append(P.gen_der(rng))
-        else:
-            der_cases.append(P.gen_der_hostile(rng))
+        der_cases.append(P.gen_der(rng) if rng.random() < 0.45 else P.gen_der_hostile(rng))
     der_cases += [P.nested_der(d, k) for d in (1, 2, 50, 200, 400, 700, 1500) for k in ('seq', 'set', 'tagged', 'mix')]
     der_cases += [P.der_tlv(b'\x06', b'\x2b' + b'\xff' * n + b'\x7f') for n in (10, 2000, 2045, 2100)]
-    with DerProbe() as probe:
-        levels = calibrate_levels(probe)
-        der_impl = [impl_der(probe, d) for d in der_cases]
-    for d, (r, depth, calls) in zip(der_cases, der_impl):
-        lines.append(f'der {str_limit} 1000000 {hx(d)}')
-        expect.append(('der', {'data': d[:2000].hex(), 'len': len(d), 'levels': levels}, (r, depth, calls)))
-        hist.hit('der:' + r.split(' ')[0] + (':' + r.split(' ')[1] if r.startswith('err') else ''))
-    res.notes.append(f'der: interpreter allows {levels} nested der_decode_partial levels under the probe; '
-                     f'int->str limit {str_limit}')
+
+    # one canonical input per exception class that the pinned tree lets escape from der_decode; what the current
+    # tree raises for them tells how the model's classes are to be read (a fix converts them to ASN1DecodeError)
+    der_canon = {'UnicodeDecodeError': b'\x0c\x01\xff', 'ASN1EncodeError': b'\x03\x02\x07\xff',
+                 'ValueError': P.der_tlv(b'\x06', b'\x2b' + b'\xff' * 2100 + b'\x7f'),
+                 'RecursionError': P.nested_der(3000, 'seq')}
+
+    def impl_codecs() -> Any:
+        f = [impl_fields('' if sc == '-' else sc, pl) for sc, pl in fcases]
+        with DerProbe() as probe:
+            lv = calibrate_levels(probe)
+            canon = {k: impl_der(probe, v)[0].split(' ')[-1] for k, v in der_canon.items()}
+            d = [impl_der(probe, x) for x in der_cases]
+        return f, lv, d, canon
+    ok, got = PL.in_child('codecs', impl_codecs, budget)
+    if not ok:
+        unresponsive('codecs', got)
+    else:
+        fimpl, levels, der_impl, der_map = got
+        res.notes.append(f'der: classes raised for the canonical escaping inputs: {der_map}')
+        for (schema, payload), impl in zip(fcases, fimpl):
+            lines.append(f'fields {schema} {hx(payload)}')
+            expect.append(('fields', {'schema': schema, 'payload': payload.hex()}, impl))
+            hist.hit('fields:' + impl.split(' ')[0] + (':' + impl.split(' ')[1] if impl.startswith('err') else ''))
+        for d, (r, depth, calls) in zip(der_cases, der_impl):
+            lines.append(f'der {str_limit} 1000000 {hx(d)}')
+            expect.append(('der', {'data': d[:2000].hex(), 'len': len(d), 'levels': levels, 'map': der_map}, (r, depth, calls)))
+            hist.hit('der:' + r.split(' ')[0] + (':' + r.split(' ')[1] if r.startswith('err') else ''))
+        res.notes.append(f'der: interpreter allows {levels} nested der_decode_partial levels under the probe; '
+                         f'int->str limit {str_limit}')
 
     # (3) version / banner machine vs a real client and a real server -----------------------------
     rng = ctx.subrng('corr-version')
@@ -341,74 +357,140 @@ def correspondence(ctx: Ctx) -> CorrResult:
         role = 'client' if i % 2 == 0 else 'server'
         vcases.append((role, gen_version_stream(rng, limits, heavy=(role == 'client'))))
 
-    async def run_versions() -> List[str]:
-        return [await impl_version(role, chunks) for role, chunks in vcases]
-    vimpl = pair.run(run_versions(), timeout=1500)
-    for (role, chunks), impl in zip(vcases, vimpl):
-        lines.append('ver ' + ('c' if role == 'client' else 's') + ' ' + ' '.join(hx(c) for c in chunks))
-        expect.append(('version', {'role': role, 'chunks': [c[:200].hex() for c in chunks],
-                                   'total': sum(len(c) for c in chunks)}, impl))
-        hist.hit('version:' + role + ':' + ' '.join(impl.split(' ')[:2] if impl.startswith('closed') else impl.split(' ')[:1]))
+    def impl_versions() -> Any:
+        async def run_versions() -> List[str]:
+            out = []
+            with C.Watch(20.0) as w:
+                for role, chunks in vcases:
+                    w.rearm()
+                    out.append(await impl_version(role, chunks))
+            return out
+        return pair.run(run_versions(), timeout=budget)
+    ok, got = PL.in_child('versions', impl_versions, budget)
+    if not ok:
+        unresponsive('version-exchange', got)
+    else:
+        for (role, chunks), impl in zip(vcases, got):
+            lines.append('ver ' + ('c' if role == 'client' else 's') + ' ' + ' '.join(hx(c) for c in chunks))
+            expect.append(('version', {'role': role, 'chunks': [c[:200].hex() for c in chunks],
+                                       'total': sum(len(c) for c in chunks)}, impl))
+            hist.hit('version:' + role + ':' + ' '.join(impl.split(' ')[:2] if impl.startswith('closed') else impl.split(' ')[:1]))
 
     # (4) limits and the send loop vs real sessions ---------------------------------------------------
     maxuser = limits['_MAX_USERNAME_LEN']
     ucases = [maxuser - 2, maxuser - 1, maxuser, maxuser + 1, 1, 0]
-
-    async def run_users() -> List[str]:
-        out = []
-        for n in ucases:
-            payload = packetmod.String(b'u' * n) + packetmod.String('ssh-connection') + packetmod.String('none')
-            o = await C.packet_case('pre-auth', 'server', f'user{n}', explicit=[(50, payload)])
-            out.append('too-long' if (o.get('reports') or [''])[0] == 'IllegalUserName' else 'ok')
-        return out
-    uimpl = pair.run(run_users(), timeout=300)
-    for n, impl in zip(ucases, uimpl):
-        lines.append(f'user {n}')
-        expect.append(('username', {'len': n}, impl))
-        hist.hit('username:' + impl)
-
     nbytes = 40
     wcases = [(role, w, p) for role in C.ROLES for w in C.EXTREMES for p in C.EXTREMES]
 
-    async def run_windows() -> List[Dict[str, Any]]:
-        out = []
-        for role, w, p in wcases:
-            with capture.PacketTap() as tap:
-                o = await C.window_case(role, w, p, nbytes=nbytes)
-                sent = []
-                for cid, pkts in tap.sent.items():
-                    sent.append([len(pl) for _q, pl in pkts if pl[:1] == b'\x5e'])      # MSG_CHANNEL_DATA
-                o['data_sizes'] = sent
-            out.append(o)
-        return out
-    wimpl = pair.run(run_windows(), timeout=600)
-    for (role, w, p), o in zip(wcases, wimpl):
-        lines.append(f'flush {w} {p} 64 {hx(b"y" * nbytes)}')
-        expect.append(('send-loop', {'role': role, 'window': w, 'max_pktsize': p, 'nbytes': nbytes}, o))
-        hist.hit('send-loop:' + C.outcome_of(o))
+    def impl_sessions() -> Any:
+        async def run_users() -> List[str]:
+            out = []
+            for n in ucases:
+                payload = packetmod.String(b'u' * n) + packetmod.String('ssh-connection') + packetmod.String('none')
+                o = await C.packet_case('pre-auth', 'server', f'user{n}', explicit=[(50, payload)])
+                out.append('too-long' if (o.get('reports') or [''])[0] == 'IllegalUserName' else 'ok')
+            return out
+
+        async def run_windows() -> List[Dict[str, Any]]:
+            out = []
+            for role, w, p in wcases:
+                with capture.PacketTap() as tap:
+                    o = await C.window_case(role, w, p, nbytes=nbytes)
+                    # MSG_CHANNEL_DATA payloads the *target* sent: type byte + recipient channel + string header + data
+                    o['data_sizes'] = [len(pl) - 9 for _q, pl in tap.sent.get(o.get('target_id'), []) if pl[:1] == b'\x5e']
+                out.append({k: o.get(k) for k in ('spin', 'rounds', 'round_budget', 'out_bytes', 'data_sizes', 'closed',
+                                                  'loop_errors', 'reports', 'role', 'window', 'pktsize', 'kind')})
+            return out
+        return pair.run(run_users(), timeout=budget), pair.run(run_windows(), timeout=budget)
+    ok, got = PL.in_child('sessions', impl_sessions, budget)
+    if not ok:
+        unresponsive('sessions', got)
+    else:
+        uimpl, wimpl = got
+        for n, impl in zip(ucases, uimpl):
+            lines.append(f'user {n}')
+            expect.append(('username', {'len': n}, impl))
+            hist.hit('username:' + impl)
+        for (role, w, p), o in zip(wcases, wimpl):
+            lines.append(('open' if role == 'server' else 'confirm') + f' {p} 0')
+            expect.append(('open-params', {'role': role, 'window': w, 'max_pktsize': p}, o))
+            lines.append(f'flush {w} {p} 64 {hx(b"y" * nbytes)}')
+            expect.append(('send-loop', {'role': role, 'window': w, 'max_pktsize': p, 'nbytes': nbytes}, o))
+            hist.hit('send-loop:' + C.outcome_of(o))
+    # (5) dispatch of synchronous handlers: decoded -> carries on, decode error -> ProtocolError close ----------
+    rng = ctx.subrng('corr-handlers')
+    St, U = packetmod.String, packetmod.UInt32
+    valid = [(2, 'se', b'', St(b'ignored')), (3, 'ue', b'', U(7)), (4, 'osse', b'', b'\x01' + St(b'dbg') + St(b'')),
+             (93, 'ue', U(0), U(0)), (93, 'ue', U(0), U(1)), (93, 'ue', U(0), U(0xffffffff)), (96, 'e', U(0), b'')]
+    hcases: List[Tuple[str, int, str, bytes, bytes]] = []
+    for role in C.ROLES:
+        for t, schema, prefix, body in valid:
+            variants = [body] + [body[:k] for k in range(len(body))] + [body + b'\x00']
+            if len(body) >= 4:
+                variants.append(body[:-4] + U(0xffffffff))
+                variants.append(U(0xffffffff) + body[4:])
+            if ctx.tier != 'thorough' and not ctx.escalated:
+                variants = variants[:1] + rng.sample(variants[1:], min(4, len(variants) - 1))
+            for v in variants:
+                hcases.append((role, t, schema, prefix, v))
+
+    def impl_handlers() -> Any:
+        async def run_h() -> List[str]:
+            out = []
+            with C.Watch(20.0) as w:
+                for role, t, _schema, prefix, v in hcases:
+                    w.rearm()
+                    o = await C.packet_case('post-auth', role, 'handler', explicit=[(t, prefix + v)])
+                    out.append(C.outcome_of(o))
+            return out
+        return pair.run(run_h(), timeout=budget)
+    ok, got = PL.in_child('handlers', impl_handlers, budget)
+    if not ok:
+        unresponsive('handlers', got)
+    else:
+        for (role, t, schema, prefix, v), impl in zip(hcases, got):
+            lines.append(f'handler {schema} {hx(v)}')
+            expect.append(('handler', {'role': role, 'type': t, 'payload': (prefix + v).hex(), 'phase': 'post-auth',
+                                       'packets': [(t, (prefix + v).hex())], 'kind': 'packet'}, impl))
+            hist.hit('handler:' + impl)
     lines.append('safe')
     expect.append(('open-guard', {}, None))
 
     # run the model ----------------------------------------------------------------------------------------
     out = ctx.model(DRIVER, lines)
     seen_kinds = set()
+    rejected_open = False
     for line, (name, case, impl), mod in zip(lines, expect, out):
         res.cases += 1
         ok = True
-        if name in ('fields', 'username'):
+        if name == 'open-params':
+            # the model (with the generated guard) either stores a packet size or closes with a protocol error
+            rejected_open = (mod == 'protocol-error')
+            if rejected_open:
+                ok = C.outcome_of(impl) == 'closes:ProtocolError'
+            seen_kinds.add('open:' + mod.split(' ')[0])
+            if not ok:
+                res.disagreements.append(Disagreement({'op': name, **case}, mod, C.outcome_of(impl), 'open-params'))
+            continue
+        if name == 'send-loop' and rejected_open:
+            continue
+        if name in ('fields', 'username', 'handler'):
             ok = (mod == impl)
         elif name == 'der':
             r, depth, calls = impl
             m_res = ' '.join(mod.split(' ')[:2])
+            if m_res.startswith('err '):
+                m_res = 'err ' + case['map'].get(m_res[4:], m_res[4:])
+            rec = 'err ' + case['map'].get('RecursionError', 'RecursionError')
             m_depth = int(mod.split('depth=')[1].split(' ')[0])
             m_calls = int(mod.split('calls=')[1])
             lv = case['levels']
             if m_depth <= lv - 2:
                 ok = (m_res == r and m_depth == depth and m_calls == calls)
             elif m_depth >= lv + 2:
-                ok = (r == 'err RecursionError')
+                ok = (r == rec)
             else:
-                ok = (r == 'err RecursionError') or (m_res == r)
+                ok = (r == rec) or (m_res == r)
             seen_kinds.add('der:' + m_res.split(' ')[-1] if m_res.startswith('err') else 'der:ok')
         elif name == 'version':
             m = mod.split(' ')
@@ -419,23 +501,14 @@ def correspondence(ctx: Ctx) -> CorrResult:
             o = impl
             spins = C.outcome_of(o) == 'spins'
             m_running = mod.startswith('running')
-            sizes = [int(x) - 9 for x in []]
-            target_sizes: List[int] = []
-            for lst in o.get('data_sizes', []):
-                # payload = type byte + recipient channel + string header
-                cand = [n - 9 for n in lst]
-                if sum(cand) > sum(target_sizes) or (len(cand) > len(target_sizes)):
-                    target_sizes = cand
+            target_sizes: List[int] = list(o.get('data_sizes') or [])
             w, p = case['window'], case['max_pktsize']
-            if p == 0 and w > 0:
-                ok = spins and m_running
-            else:
-                ok = (not spins) and (not m_running)
-                if ok and (w >= nbytes or w == 0):
-                    m_sizes = [int(x) for x in mod.split('sizes=')[1].split(' ')[0].split(',') if x]
-                    # the target also sends its own small writes (none here); compare the DATA sizes of the big write
-                    big = [n for n in target_sizes if n > 0]
-                    ok = (big[:len(m_sizes)] == m_sizes) if m_sizes else (sum(big) == 0 or w == 0)
+            # the model (with the generated loop exit, if any) says whether the loop ends; the real sender must agree
+            ok = (spins == m_running)
+            if ok and not spins and (w >= nbytes or w == 0 or p == 0):
+                m_sizes = [int(x) for x in mod.split('sizes=')[1].split(' ')[0].split(',') if x]
+                big = [n for n in target_sizes if n > 0]
+                ok = (big[:len(m_sizes)] == m_sizes) if m_sizes else (sum(big) == 0)
             seen_kinds.add(f'send-loop:{"spin" if spins else "ok"}')
         elif name == 'open-guard':
             res.notes.append(f'channel-open guard in the current tree: {mod}')
@@ -448,7 +521,7 @@ def correspondence(ctx: Ctx) -> CorrResult:
     res.nontrivial = len(set(l.split(' ')[0] + ':' + l.split(' ')[1] for l in lines if ' ' in l)) + len(seen_kinds)
     res.histogram = dict(hist)
     res.samples = [{'line': lines[i][:160], 'model': out[i][:160], 'impl': str(expect[i][2])[:160]}
-                   for i in (0, 1, len(lines) // 2, len(lines) - 3)]
+                   for i in sorted(set(x for x in (0, 1, len(lines) // 2, len(lines) - 3) if 0 <= x < len(lines)))]
     res.rule = ('field decoders: random getter schemas over structured and malformed payloads (every result or error '
                 'kind, step count, unread bytes); DER: generated and hostile encodings (result/exception class, '
                 'recursion depth, der_decode_partial calls); version exchange: generated line streams against a real '
@@ -462,178 +535,30 @@ def correspondence(ctx: Ctx) -> CorrResult:
 # oracle
 
 
-def limit_cases() -> List[Tuple[str, str, bytes, str, str]]:
-    """(name, role, stream, expected close reason fragment, signature if the limit is not enforced)"""
-    conn = importlib.import_module('asyncssh.connection')
-    ml, mll, mv = conn._MAX_BANNER_LINES, conn._MAX_BANNER_LINE_LEN, conn._MAX_VERSION_LINE_LEN
-    return [
-        ('banner-lines', 'client', b'hello\r\n' * (ml + 6) + b'SSH-2.0-late\r\n', 'Too many banner lines', 'c10:banner-lines-unbounded'),
-        ('banner-line-length', 'client', b'z' * (3 * mll), 'Banner line too long', 'c10:banner-line-unbounded'),
-        ('banner-line-length', 'server', b'z' * (3 * mll), 'Banner line too long', 'c10:banner-line-unbounded'),
-        ('version-length', 'client', b'SSH-2.0-' + b'v' * (mv + 50) + b'\r\n', 'Version too long', 'c10:version-line-unbounded'),
-        ('version-length', 'server', b'SSH-2.0-' + b'v' * (mv + 50) + b'\r\n', 'Version too long', 'c10:version-line-unbounded'),
-        ('server-banner', 'server', b'hello\r\nSSH-2.0-x\r\n', 'Unsupported SSH version', 'c10:server-accepts-banner'),
-    ]
-
-
-async def run_limit_case(role: str, stream: bytes) -> Dict[str, Any]:
-    case = await C.setup_clear(role, 'start')
-    try:
-        assert case.hub is not None
-        case.arm_output_budget(len(stream))
-        with C.Watch():
-            for i in range(0, len(stream), 4096):
-                if case.closed():
-                    break
-                case.hub.inject(case.to_target, stream[i:i + 4096])
-                await C.quiesce(case, 60)
-        reports = case.lost_reports()
-        return {'closed': case.closed(), 'reason': str(getattr(reports[0], 'reason', reports[0])) if reports else '',
-                'spin': case.spin}
-    finally:
-        C.teardown(case)
-        await pair.settle(4)
-
-
-def corpus_packets() -> List[Tuple[str, str, List[Tuple[int, bytes]], str]]:
-    """deterministic inputs for every connection-level root cause seen so far (phase, role, packets, note)"""
-    St, U = packetmod.String, packetmod.UInt32
-    kex_ok = packetmod.NameList([b'curve25519-sha256'])
-    names = packetmod.NameList
-    cookie = bytes(16)
-    rest9 = names([b'ssh-ed25519']) + names([b'aes128-ctr']) * 2 + names([b'hmac-sha2-256']) * 2 + names([b'none']) * 2 + \
-        names([]) * 2 + b'\0' + U(0)
-    return [
-        ('pre-kex', 'server', [(20, cookie + kex_ok[:7])], 'KEXINIT truncated inside a name-list (async handler)'),
-        ('pre-kex', 'client', [(20, cookie + kex_ok[:7])], 'KEXINIT truncated inside a name-list (async handler)'),
-        ('pre-kex', 'server', [(20, cookie + names([b'\xff']) + rest9)], 'KEXINIT with a non-ASCII algorithm name and no match'),
-        ('pre-kex', 'client', [(20, cookie + names([b'\xff']) + rest9)], 'KEXINIT with a non-ASCII algorithm name and no match'),
-        ('pre-auth', 'server', [(50, St(b'user') + St(b'ssh-connection') + St(b'password'))],
-         'USERAUTH_REQUEST password without its fields (decoded in a task)'),
-        ('pre-auth', 'server', [(50, St(b'user') + St(b'ssh-connection') + St(b'publickey'))],
-         'USERAUTH_REQUEST publickey without its fields (decoded in a task)'),
-        ('post-auth', 'server', [(93, U(0) + U(0xffffffff))], 'WINDOW_ADJUST 2^32-1 on top of an open window'),
-        ('post-auth', 'client', [(93, U(0) + U(0xffffffff))], 'WINDOW_ADJUST 2^32-1 on top of an open window'),
-        ('post-auth', 'server', [(93, U(0) + U(0xffffffff))] * 3, 'three WINDOW_ADJUST 2^32-1'),
-        ('post-auth', 'server', [(90, St(b'session') + U(0) + U(0xffffffff) + U(0xffffffff))], 'CHANNEL_OPEN at the maxima'),
-        ('post-auth', 'server', [(90, St(b'session') + U(0xffffffff) + U(0) + U(1))], 'CHANNEL_OPEN window 0'),
-        ('post-auth', 'server', [(94, U(0) + U(0xffffffff) + b'xx')], 'DATA whose length field exceeds the packet'),
-        ('post-auth', 'client', [(94, U(0) + U(0xffffffff) + b'xx')], 'DATA whose length field exceeds the packet'),
-        ('post-auth', 'server', [(80, St(b'tcpip-forward') + b'\x01' + St(b'\xff') + U(0xffffffff))], 'tcpip-forward extremes'),
-        ('post-auth', 'server', [(98, U(0) + St(b'pty-req') + b'\x01' + St(b'xterm') + U(0xffffffff) * 4 + St(b'\x80\xff\xff\xff\xff'))],
-         'pty-req with extreme sizes and modes'),
-    ]
-
-
-def corpus_streams() -> List[Tuple[str, str, bytes, str]]:
-    return [
-        ('pre-kex', 'server', struct.pack('>I', 12) + b'\x0b' + bytes(11), 'frame whose payload is empty'),
-        ('pre-kex', 'client', struct.pack('>I', 12) + b'\x0b' + bytes(11), 'frame whose payload is empty'),
-        ('in-kex', 'server', struct.pack('>I', 0) + bytes(12), 'packet length 0 (negative remainder, F12)'),
-        ('pre-kex', 'server', struct.pack('>I', 0xffffffff) + bytes(64), 'packet length 2^32-1 (stall)'),
-        ('pre-kex', 'server', C.frame(b'\x02' + packetmod.String(b'')) * 3000, '3000 minimal IGNORE packets in one chunk'),
-    ]
-
-
-def corpus_sftp() -> List[Tuple[bytes, str]]:
-    S_, u = S.S, S.u32
-    init = lambda ext, data: S.sftp_frame(random.Random(1), b'')[:0] + u(len(b'\x01' + u(3) + S_(ext) + S_(data))) + \
-        b'\x01' + u(3) + S_(ext) + S_(data)      # noqa: E731
-    return [(init(b'supported', b'\x00'), 'INIT v3 with a truncated "supported" extension'),
-            (init(b'vendor-id', b''), 'INIT v3 with an empty "vendor-id" extension'),
-            (init(b'acl-supported', b'\x00' * 9), 'INIT v3 with an over-long "acl-supported" extension')]
-
-
-def corpus_sftp_client() -> List[Tuple[List[Tuple[int, bytes]], List[str], str]]:
-    """(scripted replies, client operations, note)"""
-    S_, u = S.S, S.u32
-    ok_version = (2, u(3))
-    return [
-        ([(2, u(3) + S_(b'supported') + S_(b'\x00'))], [], 'VERSION reply with a truncated "supported" extension'),
-        ([ok_version, (104, u(0))], ['realpath'], 'NAME reply with zero names to REALPATH'),
-        ([ok_version, (104, u(0))], ['readlink'], 'NAME reply with zero names to READLINK'),
-        ([ok_version, (105, u(1))], ['stat'], 'ATTRS reply cut off after the flags'),
-        ([ok_version, (101, u(0))], ['mkdir'], 'STATUS reply without message and language'),
-        ([ok_version, (102, b'')], ['read'], 'HANDLE reply without a handle'),
-    ]
-
-
-def corpus_parsers() -> List[Tuple[str, bytes, str]]:
-    """(target, input, note): crafted inputs for every parser root cause seen so far"""
-    art = P.artefacts()
-    deep = P.nested_der(700, 'seq')
-    pem = lambda name, body: b'-----BEGIN ' + name + b'-----\n' + base64.encodebytes(body) + b'-----END ' + name + b'-----\n'   # noqa: E731
-    bad_utf8 = b'\x30\x03\x0c\x01\xff'
-    bad_bits = b'\x30\x04\x03\x02\x07\xff'
-    big_oid = P.der_tlv(b'\x30', P.der_tlv(b'\x06', b'\x2b' + b'\xff' * 2100 + b'\x7f'))
-    out: List[Tuple[str, bytes, str]] = [
-        ('der_decode', deep, '700 nested SEQUENCEs'),
-        ('der_decode', bad_utf8, 'UTF8String with an invalid byte'),
-        ('der_decode', bad_bits, 'BIT STRING whose unused bits are set'),
-        ('der_decode', big_oid, 'OBJECT IDENTIFIER component above the int->str limit'),
-    ]
-    for tgt, name in (('import_private_key', b'PRIVATE KEY'), ('import_public_key', b'PUBLIC KEY'),
-                      ('import_certificate', b'CERTIFICATE')):
-        out += [(tgt, deep, 'DER: 700 nested SEQUENCEs'), (tgt, pem(name, deep), 'PEM: 700 nested SEQUENCEs'),
-                (tgt, bad_utf8, 'DER: invalid UTF8String'), (tgt, pem(name, bad_utf8), 'PEM: invalid UTF8String'),
-                (tgt, bad_bits, 'DER: BIT STRING with unused bits set'), (tgt, pem(name, bad_bits), 'PEM: bad BIT STRING'),
-                (tgt, big_oid, 'DER: OID component above the int->str limit'),
-                (tgt, b'-----BEGIN ( ' + name + b'-----\nAAAA\n-----END ( ' + name + b'-----\n', 'regex metacharacter in the PEM header'),
-                (tgt, b'-----BEGIN \\E ' + name + b'-----\nAAAA\n-----END \\E ' + name + b'-----\n', 'backslash in the PEM header')]
-    out.append(('import_certificate', b'\x30\x02\x05\x00', 'well-formed DER that is not a certificate (no X.509 backend)'))
-    out.append(('import_certificate', pem(b'CERTIFICATE', b'\x30\x02\x05\x00'), 'PEM certificate (no X.509 backend)'))
-    rsa = [k for k in art['keys'] if k.get_algorithm() == 'ssh-rsa']
-    if rsa:
-        pub = asn1mod.der_decode(rsa[0].export_public_key('pkcs1-der'))
-        n, e = pub
-        out.append(('import_public_key', asn1mod.der_encode((n, 4)), 'PKCS#1 RSA public key with an even exponent'))
-        out.append(('import_public_key', asn1mod.der_encode((-n, e)), 'PKCS#1 RSA public key with a negative modulus'))
-        out.append(('import_public_key', pem(b'RSA PUBLIC KEY', asn1mod.der_encode((n, 4))), 'PEM RSA public key, even exponent'))
-        priv = list(asn1mod.der_decode(rsa[0].export_private_key('pkcs1-der')))
-        priv[5] = priv[5] + 2
-        out.append(('import_private_key', asn1mod.der_encode(tuple(priv)), 'PKCS#1 RSA private key with p*q != n'))
-        out.append(('import_private_key', pem(b'RSA PRIVATE KEY', asn1mod.der_encode(tuple(priv))), 'PEM RSA private key, p*q != n'))
-        neg = list(asn1mod.der_decode(rsa[0].export_private_key('pkcs1-der')))
-        neg[3] = -neg[3]
-        out.append(('import_private_key', asn1mod.der_encode(tuple(neg)), 'PKCS#1 RSA private key with a negative exponent'))
-
-        def negate_iterations(v: Any) -> Any:
-            if isinstance(v, tuple):
-                return tuple(negate_iterations(x) for x in v)
-            if isinstance(v, int) and not isinstance(v, bool) and v >= 1000:
-                return -v
-            return v
-        enc = rsa[0].export_private_key('pkcs8-der', passphrase='pw')
-        out.append(('import_private_key:passphrase', asn1mod.der_encode(negate_iterations(asn1mod.der_decode(enc))),
-                    'encrypted PKCS#8 whose PBKDF2 iteration count is negative'))
-    ec = [k for k in art['keys'] if k.get_algorithm() == 'ecdsa-sha2-nistp256']
-    if ec:
-        spki = ec[0].export_public_key('pkcs8-der')
-        out.append(('import_public_key', spki[:-3] + b'\xff\xff\xff', 'SPKI EC key whose point is not on the curve'))
-    return out
+from props._c10_corpus import (limit_cases, run_limit_case, corpus_sftp_client)  # noqa: E402,F401
 
 
 def plan_jobs(ctx: Ctx) -> List[Tuple[str, str, int, int]]:
     jobs: List[Tuple[str, str, int, int]] = []
     thorough = ctx.tier == 'thorough' or ctx.escalated
-    per_target = 4000 if not thorough else 60000
+    per_target = 6000 if not thorough else 150000
     split = 4 if not thorough else 12
     for t in P.TARGETS:
         n = per_target if t not in ('agent_client',) else per_target // 2
         for s in range(split):
             jobs.append(('_run_parser_job', t, s * (n // split), n // split))
-    per_combo = 1000 if not thorough else 12000
+    per_combo = 1500 if not thorough else 30000
     csplit = 2 if not thorough else 6
     for ph in C.PHASES:
         for r in C.ROLES:
             for s in range(csplit):
                 jobs.append(('_run_conn_job', f'packet:{ph}:{r}', s * (per_combo // csplit), per_combo // csplit))
-    per_stream = 150 if not thorough else 2500
+    per_stream = 200 if not thorough else 6000
     for ph in ['start'] + C.PHASES:
         for r in C.ROLES:
             jobs.append(('_run_conn_job', f'stream:{ph}:{r}', 0, per_stream))
-    nsrv = 1000 if not thorough else 16000
-    ncli = 120 if not thorough else 2400
+    nsrv = 1500 if not thorough else 40000
+    ncli = 160 if not thorough else 4000
     for s in range(2 if not thorough else 8):
         jobs.append(('_run_conn_job', 'sftp-server', s * (nsrv // (2 if not thorough else 8)), nsrv // (2 if not thorough else 8)))
         jobs.append(('_run_conn_job', 'sftp-client', s * (ncli // (2 if not thorough else 8)), ncli // (2 if not thorough else 8)))
@@ -641,73 +566,6 @@ def plan_jobs(ctx: Ctx) -> List[Tuple[str, str, int, int]]:
     rng = ctx.subrng('plan')
     rng.shuffle(jobs)
     return jobs
-
-
-def run_corpus(ctx: Ctx, res: OracleResult, hist: Hist) -> None:
-    """deterministic part: limits, channel-open extremes, one input per root cause seen so far"""
-    # limits ----------------------------------------------------------------------------
-    async def limits() -> List[Tuple[Any, Dict[str, Any]]]:
-        out = []
-        for lc in limit_cases():
-            out.append((lc, await run_limit_case(lc[1], lc[2])))
-        return out
-    for (name, role, stream, frag, sig), o in pair.run(limits(), timeout=300):
-        res.evaluations += 1
-        hist.hit(f'limit:{name}:{role}:' + ('closed' if o['closed'] else 'open'))
-        if not o['closed'] or frag not in o['reason']:
-            res.failures.append(Failure(sig, f'{role} fed {len(stream)} bytes ({name}): expected a close with "{frag}", '
-                                             f'got closed={o["closed"]} reason={o["reason"][:60]!r}',
-                                        {'kind': 'limit', 'role': role, 'data': stream[:64].hex(), 'data_len': len(stream),
-                                         'name': name}))
-
-    # channel-open parameters at the extremes (F2 lives here) -----------------------------
-    async def windows() -> List[Dict[str, Any]]:
-        out = []
-        for role in C.ROLES:
-            for w in C.EXTREMES:
-                for p in C.EXTREMES:
-                    out.append(await C.window_case(role, w, p))
-        return out
-    for o in pair.run(windows(), timeout=600):
-        res.evaluations += 1
-        hist.hit(f'channel-open:{o["role"]}:pktsize={o["pktsize"]}:window={"0" if o["window"] == 0 else "+"}:' + C.outcome_of(o))
-        for sig, what in C.failures_of(o):
-            if sig.startswith('c10:spins') and o['pktsize'] == 0:
-                sig = f'c10:spins:zero-max-packet-size:{o["role"]}-send-loop'
-            res.failures.append(Failure(sig, what, {'kind': 'channel-open-params', 'role': o['role'],
-                                                    'window': o['window'], 'max_pktsize': o['pktsize']}))
-
-    # packets / streams / sftp ------------------------------------------------------------
-    async def conn_corpus() -> List[Tuple[str, Dict[str, Any], Dict[str, Any]]]:
-        out = []
-        for ph, role, pkts, note in corpus_packets():
-            o = await C.packet_case(ph, role, 'corpus', explicit=pkts)
-            out.append((note, o, {'kind': 'packet', 'phase': ph, 'role': role, 'packets': [(t, p.hex()) for t, p in pkts]}))
-        for ph, role, data, note in corpus_streams():
-            o = await C.stream_case(ph, role, 'corpus', explicit=(data, []))
-            out.append((note, o, {'kind': 'stream', 'phase': ph, 'role': role, 'data': data[:4096].hex(),
-                                  'data_len': len(data), 'cuts': []}))
-        for script, note in corpus_sftp():
-            o = await S.sftp_server_case('corpus', explicit=script)
-            out.append((note, o, {'kind': 'sftp-server', 'data': script.hex()}))
-        for i, (script2, ops, note) in enumerate(corpus_sftp_client()):
-            o = await S.sftp_client_case('corpus', script=script2, ops_fixed=ops)
-            out.append((note, o, {'kind': 'sftp-client-script', 'index': i}))
-        return out
-    for note, o, rep in pair.run(conn_corpus(), timeout=600):
-        res.evaluations += 1
-        hist.hit('corpus:' + C.outcome_of(o))
-        for sig, what in C.failures_of(o):
-            res.failures.append(Failure(sig, f'{note}: {what}', rep))
-
-    # parsers (safe in-process: every one of these returns or raises quickly) -------------
-    for tgt, data, note in corpus_parsers():
-        key, sig, detail = P.run_case(tgt, data)
-        res.evaluations += 1
-        hist.hit(f'corpus:{tgt}:{key}')
-        if sig:
-            res.failures.append(Failure(sig, f'{note}: {detail}', {'kind': 'parser', 'target': tgt, 'input': data[:6000].hex(),
-                                                                   'input_len': len(data), 'note': note}))
 
 
 def oracle(ctx: Ctx) -> OracleResult:
@@ -721,13 +579,14 @@ def oracle(ctx: Ctx) -> OracleResult:
                 res.failures.append(f)
         except Exception:
             pass
-    run_corpus(ctx, res, hist)
     t1 = time.time()
     thorough = ctx.tier == 'thorough' or ctx.escalated
     workers = WORKERS_THOROUGH if thorough else WORKERS_QUICK
     workers = max(2, min(workers, (os.cpu_count() or 4)))
-    deadline = time.time() + (50 if not thorough else 720)
-    jobs = plan_jobs(ctx)
+    deadline = time.time() + (720 if ctx.tier == 'thorough' else (240 if ctx.escalated else 50))
+    from props import _c10_corpus as K
+    ncorpus = len(K.corpus_items())
+    jobs = [('_run_corpus_job', 'corpus', s0, 12) for s0 in range(0, ncorpus, 12)] + plan_jobs(ctx)
     phist, pfails, ncases, stats, notes = PL.run_jobs(ctx.seed, jobs, workers, deadline)
     res.evaluations += ncases
     for k, v in phist.items():
@@ -751,9 +610,10 @@ def oracle(ctx: Ctx) -> OracleResult:
     if harness_errors:
         res.notes.append(f'{harness_errors} cases could not be set up (counted, not findings)')
     res.notes += notes
-    res.notes.append(f'oracle: corpus {t1 - t0:.1f}s, fuzz {time.time() - t1:.1f}s on {workers} workers; '
+    res.notes.append(f'oracle: {ncorpus} corpus inputs + fuzz in {time.time() - t1:.1f}s on {workers} workers; '
                      f'max loop rounds per input {stats.get("max_rounds")}, max response bytes per input byte beyond '
-                     f'the {C.OUT_A}-byte allowance {stats.get("max_out_ratio"):.2f} (budget {C.OUT_B})')
+                     f'the {C.OUT_A}-byte allowance {stats.get("max_out_ratio"):.2f} (budget {C.OUT_B}); slowest connection case '
+                     f'{stats.get("max_case_s", 0):.2f}s ({stats.get("slowest")})')
     res.histogram = dict(hist)
     res.nontrivial = len([k for k in hist if not k.startswith('harness-error')])
     res.samples = [{'signature': f.signature, 'what': f.what[:200]} for f in res.failures[:3]] or \
@@ -801,6 +661,11 @@ def replay_one(r: Dict[str, Any]) -> List[Failure]:
     elif kind == 'sftp-client-script':
         script2, ops, _note = corpus_sftp_client()[r['index']]
         o = pair.run(S.sftp_client_case('replay', script=script2, ops_fixed=ops))
+    elif kind == 'corpus-item':
+        from props import _c10_corpus as K
+        for sig, what, rep in K.corpus_items()[r['index']][1]():
+            fails.append(Failure(sig, what, rep))
+        return fails
     elif r.get('case_seed'):
         cs = r['case_seed']
         parts = cs.split(':')
